@@ -882,6 +882,9 @@ def computeMacroscopicGroupConstants(
         microGroupConstants = _getMicroGroupConstants(
             libNuclide, constantName, nuclideName, libType
         )
+        if microGroupConstants is None:
+            # this nuclide does not carry the requested data: it contributes nothing
+            continue
 
         multiplierVal = _getXsMultiplier(multLibNuclide, multConstant, libType)
 
@@ -940,7 +943,10 @@ def _getMicroGroupConstants(libNuclide, constantName, nuclideName, libType):
     else:
         microCollection = libNuclide
 
-    microGroupConstants = np.asarray(getattr(microCollection, constantName))
+    microGroupConstants = getattr(microCollection, constantName)
+    if microGroupConstants is None:
+        return None
+    microGroupConstants = np.asarray(microGroupConstants)
 
     if not microGroupConstants.any():
         runLog.debug(
